@@ -280,6 +280,9 @@ type c06Op struct {
 	// canceled-before / expired-before = the context is already done when DelCtx is called,
 	// so the foreground delete fails in the client without reaching redis.
 	Ctx string `json:"ctx,omitempty"`
+	// Absent: the keys are not in redis when the retries run (never cached / already expired):
+	// the first retry that gets through deletes 0 keys — it has succeeded all the same.
+	Absent bool `json:"absent,omitempty"`
 }
 
 // c06Ctx is a request context whose end the harness decides (no wall clock involved).
@@ -450,7 +453,9 @@ func (x *c06Run) issue(op c06Op) (ok bool) {
 			u.mr = mr
 			r.register(u.plan)
 			for _, k := range u.plan.keys {
-				mr.Set(k, "stale")
+				if !op.Absent {
+					mr.Set(k, "stale")
+				}
 			}
 		}
 		if err := n.DelCtx(ctx, keys...); err != nil {
@@ -491,7 +496,9 @@ func (x *c06Run) issue(op c06Op) (ok bool) {
 			u.mr = mr
 			r.register(u.plan)
 			for _, k := range ks {
-				mr.Set(k, "stale")
+				if !op.Absent {
+					mr.Set(k, "stale")
+				}
 			}
 			x.stats[fmt.Sprintf("cluster_keys_on_node%d", i)] += int64(len(ks))
 		}
@@ -812,7 +819,33 @@ func TestVerifC06RetrySystematic(t *testing.T) {
 			}
 		}
 	}
-	m.Extra("exhaustive_family", "4 delete paths x j=0..5, plus 3 redis paths x 4 request-context fates x j=0..5")
+	// the keys of the failed delete are not cached when the retry gets through (DEL removes 0 keys)
+	for _, kind := range []string{"node", "clustertype", "cluster"} {
+		for j := 0; j <= 5; j++ {
+			idx++
+			if !m.Only(idx) {
+				continue
+			}
+			op := c06Op{Kind: kind, NKeys: 1 + j%3, Absent: true, FgFail: []bool{true}, FailFirst: []int{j}}
+			switch kind {
+			case "clustertype":
+				op.NKeys, op.FgFail, op.FailFirst = 3, []bool{true, false, true}, []int{j, 0, 5 - j}
+			case "cluster":
+				op.NKeys = 6
+				op.FgFail = []bool{true, j%2 == 0, true}
+				op.FailFirst = []int{j, (j + 2) % 6, (j + 4) % 6}
+			}
+			sc := c06Scenario{Name: fmt.Sprintf("%s/absent/j=%d", kind, j), Ops: []c06Op{op}}
+			ok, stats := c06RunScenario(m, rig, idx, sc)
+			if !ok {
+				return
+			}
+			c06Finish(m, sc, stats, agg)
+			agg["absent_key_scenarios"]++
+			m.Progress()
+		}
+	}
+	m.Extra("exhaustive_family", "4 delete paths x j=0..5, plus 3 redis paths x 4 request-context fates x j=0..5, plus 3 redis paths x keys-absent x j=0..5")
 }
 
 func c06RandomScenario(r interface{ Intn(int) int }, idx int) c06Scenario {
@@ -827,6 +860,9 @@ func c06RandomScenario(r interface{ Intn(int) int }, idx int) c06Scenario {
 		}
 		if op.Kind != "direct" {
 			op.Ctx = []string{"", "", "cancel-after", "deadline-after", "canceled-before", "expired-before"}[r.Intn(6)]
+		}
+		if op.Kind != "direct" && !strings.HasSuffix(op.Ctx, "-before") && r.Intn(4) == 0 {
+			op.Absent = true
 		}
 		groups := 1
 		switch op.Kind {
